@@ -49,6 +49,25 @@ def check_doc(seed):
         if a != b:
             ks = [k for k in a if a[k] != b[k]]
             return f"the word {w} sits under the wrong {ks[0]}: denoted {a[ks[0]]!r}, built {b[ks[0]]!r}", text, lang
+    # the class conversion of the advanced tree (advtree.py): same structure, and no construct of the grammar left generic
+    import contextlib
+    import io
+
+    from mwlib.parser import advtree
+
+    with contextlib.redirect_stdout(io.StringIO()):
+        advtree.build_advanced_tree(t)
+    got2 = dc.read_tree(t)
+    if got2 != got:
+        bad = next(((w, a, b) for (w, a), (_, b) in zip(got, got2) if a != b), None)
+        if bad is None:
+            return "the advanced tree has other words than the parse tree", text, lang
+        ks = [k for k in bad[1] if bad[1][k] != bad[2][k]]
+        return f"the word {bad[0]} changed its {ks[0]} in the advanced tree: {bad[1][ks[0]]!r} became {bad[2][ks[0]]!r}", text, lang
+    for n in t.allchildren():
+        if type(n).__name__ in ("Style", "TagNode"):
+            return (f"the advanced tree keeps a generic {type(n).__name__} {n.caption!r} (no node class of its own) around "
+                    f"{(n.get_all_display_text() or '')[:30]!r}"), text, lang
     return None, text, lang
 
 
@@ -383,6 +402,10 @@ def run(chk: common.Check):
         "correspondence_differences": len(diffs),
         "histogram": dict(hist),
     })
+    # a heading sequence whose section forest differs from `Sections.nest` is a concrete mis-parsed document: the Lean
+    # function is the proved statement of what the headings denote (c02_sections_*), and the input is real wikitext
+    for dd in [x for x in diffs if "stream" not in x and "text" in x][:2]:
+        bad.append({"text": dd["text"], "why": f"sections nested as {dd['impl']} although the headings denote {dd['model']}"})
     seen = set()
     for b in bad:
         k = b["why"][:30]
